@@ -1,10 +1,146 @@
-(* C08 - stub, extended below in the development *)
+(* C08 - Alephium messages reach the signer only when final and from the token bridge, on the polling path and on the
+   re-observation path alike.
+
+   model.AlphWatcher is the watcher as a transition system over an abstract node: every answer the watcher obtains from
+   the node is an input of the step in which it is obtained ("at that moment" = according to the node's answer in that
+   step).  Steps: OPoll (one tick of fetchEvents), ODeliver (hand-over of the batch to the event loop), OTick (a height
+   reaches handleEvents_), OReobs (handleObsvRequest handles a request), OHeightErr.  Constants, comparison operators and
+   the presence of the filters come from gen.Extracted (regenerated from watcher.go / reobserve.go / client.go / utils.go
+   on every run), so the theorems below are about the code as it is now. *)
 From Coq Require Import List ZArith Bool Lia.
 From WH Require Import gen.Extracted model.AlphWatcher proofs.AlphWatcherProofs.
 Import ListNotations.
 Open Scope Z_scope.
 
+(* isEventConfirmed = enough blocks on top AND the wall-clock hold elapsed; hold = level * 16 s, on mainnet
+   max(level, 205) * 16 s for token transfers *)
 Theorem C08_confirmed_spec : forall mn m h now height, sane_hdr h (m_cl m) ->
   confirmed mn m h now height = true <-> (h_height h + m_cl m <= height /\ h_ts h + hold mn m <= now).
 Proof. exact confirmed_spec. Qed.
+
+(* THE SAFETY INVARIANT, over every history (any number of polls, hand-overs, height ticks, re-observation requests and
+   failures, in any order, with any answers of the node, including API errors at any call, reorgs between two calls,
+   foreign senders, look-alike events of other contracts, mismatching attestations):
+   every message handed to the signer is `justified` in the step that forwards it.
+   EP / HP / AP are ARBITRARY predicates on the node's answers ("is an event of the governance contract's stream",
+   "is the header of that block", "is a metadata answer of the node"): whatever holds for everything the node answered
+   holds for what is forwarded - messages are built from the node's answers only. *)
+Theorem C08_safety_all_histories : forall c EP HP AP ops from0,
+  Forall (op_ok c EP HP AP) ops -> all_justified c EP HP AP (init from0) ops.
+Proof. intros c EP HP AP ops from0 H. apply safety_all_histories; [apply Inv_init|exact H]. Qed.
+
+(* ... and from every state that satisfies the invariant (so also after a restart with any such state) *)
+Theorem C08_safety_from_any_good_state : forall c EP HP AP ops s,
+  Inv EP HP AP s -> Forall (op_ok c EP HP AP) ops -> all_justified c EP HP AP s ops.
+Proof. exact safety_all_histories. Qed.
+
+(* what `justified` says on the polling path: the event was served by the node in a page of the governance contract's
+   stream, it is a WormholeMessage event whose sender field is the configured token-bridge id, the node has just reported
+   its block as main-chain, and with the block's header: height + level <= current height, timestamp + level*16 s <= now,
+   on mainnet for transfers timestamp + max(level,205)*16 s <= now; attestations carry exactly the token contract's answer *)
+Theorem C08_meaning_polling_path : forall c EP HP AP height now mc hd f,
+  justified c EP HP AP (OTick height now mc hd) f -> sane_hdr (f_hdr f) (m_cl (f_msg f)) ->
+  EP (f_ev f) /\ HP (e_block (f_ev f)) (f_hdr f) /\ m_sender (f_msg f) = c_bridge c /\
+  mc (e_block (f_ev f)) = Some true /\
+  h_height (f_hdr f) + m_cl (f_msg f) <= height /\
+  h_ts (f_hdr f) + m_cl (f_msg f) * 16000 <= now /\
+  (c_mainnet c = true -> is_transfer (f_msg f) = true -> h_ts (f_hdr f) + Z.max (m_cl (f_msg f)) 205 * 16000 <= now) /\
+  attest_ok AP (f_msg f) (f_chain f).
+Proof. exact justified_tick_meaning. Qed.
+
+(* ... and on the re-observation path: the same, and the event is one the node listed for the requested transaction
+   WITH the governance contract's address, in the very block whose main-chain status was queried *)
+Theorem C08_meaning_reobservation_path : forall c EP HP AP r f,
+  justified c EP HP AP (OReobs r) f -> sane_hdr (f_hdr f) (m_cl (f_msg f)) ->
+  EP (f_ev f) /\ HP (e_block (f_ev f)) (f_hdr f) /\ m_sender (f_msg f) = c_bridge c /\
+  r_status r = Some (Some (e_block (f_ev f))) /\ r_mc r = Some true /\
+  (exists te evs, r_events r = Some evs /\ In te evs /\ t_ev te = f_ev f /\ t_addr te = c_gov c) /\
+  (exists height, r_height r = Some height /\
+     h_height (f_hdr f) + m_cl (f_msg f) <= height /\
+     h_ts (f_hdr f) + m_cl (f_msg f) * 16000 <= r_now r /\
+     (c_mainnet c = true -> is_transfer (f_msg f) = true -> h_ts (f_hdr f) + Z.max (m_cl (f_msg f)) 205 * 16000 <= r_now r)) /\
+  attest_ok AP (f_msg f) (f_chain f).
+Proof. exact justified_reobs_meaning. Qed.
+
+(* no other step forwards anything *)
+Theorem C08_only_ticks_and_reobservations_forward : forall c EP HP AP o f, justified c EP HP AP o f ->
+  (exists height now mc hd, o = OTick height now mc hd) \/ (exists r, o = OReobs r).
+Proof. exact justified_only_tick_reobs. Qed.
+
+(* attestations: validation succeeds only if the payload decodes to exactly what GetTokenInfo made of the node's answer,
+   and GetTokenInfo accepts only the native token or three succeeded calls with one well-typed return each *)
+Theorem C08_attestation_equals_chain : forall m a t, validate_attest m a = VaOk t ->
+  m_tok m = Some t /\ get_token_info (ti_id t) a = TiOk t.
+Proof. exact validate_attest_ok. Qed.
+
+Theorem C08_token_info_shape : forall id a t, get_token_info id a = TiOk t ->
+  (id = alph_native_id /\ t = {| ti_id := alph_native_id; ti_dec := alph_native_decimals; ti_sym := alph_native_sym; ti_name := alph_native_name |}) \/
+  (exists vs vn vd s n d, a = McRes [COk [vs]; COk [vn]; COk [vd]] /\ to_bytevec vs = Some s /\ to_bytevec vn = Some n /\ to_uint8 vd = Some d /\
+                          t = {| ti_id := id; ti_dec := d; ti_sym := s; ti_name := n |}).
+Proof. exact get_token_info_spec. Qed.
+
+(* the polling path forwards each fetched event at most once: for EVERY predicate p on events, along every history the
+   number of p-events forwarded by height ticks plus the number still held never exceeds the number fetched in batches *)
+Theorem C08_polling_forwards_at_most_once : forall c p ops from0,
+  (cnt p (tick_fwds c (init from0) ops) + cnt p (held (final c (init from0) ops)) <= cnt p (batches c (init from0) ops))%nat.
+Proof. intros c p ops from0. pose proof (forwarded_at_most_fetched c p ops (init from0)) as H. cbn in H. exact H. Qed.
+
+(* orphaned blocks: a message forwarded by a tick is in a block the node reported main-chain in that tick (above); and
+   after a tick nothing confirmed is left pending - confirmed events of orphaned blocks are dropped for good *)
+Theorem C08_confirmed_orphans_are_dropped : forall c s height now mc hd,
+  w_dead (fst (step c s (OTick height now mc hd))) = false ->
+  Forall (fun b' => exists h, pb_hdr b' = Some h /\ Forall (fun u => confirmed (c_mainnet c) (u_msg u) h now height = false) (pb_evs b'))
+         (w_pending (fst (step c s (OTick height now mc hd)))) \/ w_dead s = true.
+Proof. exact tick_leaves_only_unconfirmed. Qed.
+
+(* ------------------------------------------------------------------ the hypotheses are satisfiable: a concrete history *)
+Definition ex_c : cfg := {| c_gov := 10; c_bridge := 77; c_mainnet := true |}.
+Definition ex_ti : tokinfo := {| ti_id := 900; ti_dec := 8; ti_sym := 3; ti_name := 4 |}.
+Definition ex_e1 : cevent := {| e_uid := 1; e_block := 5; e_index := 0; e_conv := Some {| m_sender := 77; m_cl := 3; m_p0 := 1; m_tok := None |} |}.
+Definition ex_e2 : cevent := {| e_uid := 2; e_block := 5; e_index := 0; e_conv := Some {| m_sender := 78; m_cl := 0; m_p0 := 1; m_tok := None |} |}.
+Definition ex_e3 : cevent := {| e_uid := 3; e_block := 5; e_index := 0; e_conv := Some {| m_sender := 77; m_cl := 3; m_p0 := 2; m_tok := Some ex_ti |} |}.
+Definition ex_fake : cevent := {| e_uid := 99; e_block := 5; e_index := 0; e_conv := Some {| m_sender := 77; m_cl := 0; m_p0 := 1; m_tok := None |} |}.
+Definition ex_ans : mc_ans := McRes [COk [VBytes (Some 3)]; COk [VBytes (Some 4)]; COk [VNum (Some 8)]].
+Definition ex_hdr : header := {| h_ts := 1000; h_height := 100 |}.
+Definition ex_pg : nat -> Z -> page_ans := fun _ s => if s =? 0 then Page [ex_e1; ex_e2; ex_e3] 3 else Page [] s.
+Definition ex_hd : Z -> option header := fun b => if b =? 5 then Some ex_hdr else None.
+Definition ex_r : reobs_in :=
+  {| r_chain := 255; r_txlen := 32; r_status := Some (Some 5);
+     r_events := Some [ {| t_addr := 11; t_ev := ex_fake |}; {| t_addr := 10; t_ev := ex_e1 |} ];
+     r_hd := ex_hd; r_tok := fun _ => ex_ans; r_mc := Some true; r_height := Some 120; r_now := 1000 + 205 * 16000 |}.
+Definition ex_ops : list op :=
+  [ OPoll (Some 3) ex_pg (fun _ => ex_ans); ODeliver; OTick 120 (1000 + 205 * 16000 - 1) (fun _ => Some true) ex_hd;
+    OTick 120 (1000 + 205 * 16000) (fun _ => Some true) ex_hd; OReobs ex_r ].
+Definition ex_EP (e : cevent) : Prop := e_uid e = 1 \/ e_uid e = 2 \/ e_uid e = 3.
+Definition ex_HP (b : Z) (h : header) : Prop := b = 5 /\ h = ex_hdr.
+Definition ex_AP (a : mc_ans) : Prop := a = ex_ans.
+
+(* the node's answers satisfy the provenance predicates; the run forwards the attestation at the first tick (hold 3
+   intervals), the transfer only at the second (205-interval floor on mainnet), never the foreign-sender event 2, and the
+   re-observation forwards event 1 but not the look-alike event 99 of contract 11 *)
+Example C08_hypotheses_satisfiable :
+  Forall (op_ok ex_c ex_EP ex_HP ex_AP) ex_ops /\
+  map (fun x => map (fun f => e_uid (f_ev f)) (o_fwd x)) (fst (run ex_c (init 0) ex_ops)) = [[]; []; [3]; [1]; [1]].
+Proof.
+  split; [|vm_compute; reflexivity].
+  assert (HH : forall b h, ex_hd b = Some h -> ex_HP b h).
+  { intros b h. unfold ex_hd. destruct (b =? 5) eqn:E; [|discriminate]. intro H. injection H as <-. apply Z.eqb_eq in E. split; auto. }
+  unfold ex_ops.
+  apply Forall_cons; [|apply Forall_cons; [exact I|apply Forall_cons; [exact HH|apply Forall_cons; [exact HH|apply Forall_cons; [|constructor]]]]].
+  - split; [|intro i; reflexivity]. intros k s evs next. unfold ex_pg. destruct (s =? 0); intro H; injection H as <- <-; [|constructor].
+    repeat apply Forall_cons; try apply Forall_nil; unfold ex_EP; cbn [e_uid ex_e1 ex_e2 ex_e3]; auto.
+  - split; [|split; [exact HH|intro i; reflexivity]]. intros evs H. cbn [r_events ex_r] in H. injection H as <-.
+    apply Forall_cons; [cbn [t_addr ex_c c_gov]; intro H; discriminate H|]. apply Forall_cons; [|apply Forall_nil].
+    intros _. unfold ex_EP. cbn [t_ev e_uid ex_e1]. auto.
+Qed.
+
 Print Assumptions C08_confirmed_spec.
+Print Assumptions C08_safety_all_histories.
+Print Assumptions C08_safety_from_any_good_state.
+Print Assumptions C08_meaning_polling_path.
+Print Assumptions C08_meaning_reobservation_path.
+Print Assumptions C08_only_ticks_and_reobservations_forward.
+Print Assumptions C08_attestation_equals_chain.
+Print Assumptions C08_token_info_shape.
+Print Assumptions C08_polling_forwards_at_most_once.
+Print Assumptions C08_confirmed_orphans_are_dropped.
